@@ -77,6 +77,12 @@ FIXED_DOCS = [
     ("leading-node-reuse-rev", "{ y: me { ...P } x: me { ...P friend { phone } } } fragment P on Owner { friend { name } }", {}),
     ("leading-node-typed", "{ pets { __typename owner { name } ... on Dog { owner { phone } } } }", {}),
     ("leading-node-typed-fragment", "{ pets { ...O ... on Cat { owner { phone friend { name } } } } } fragment O on Pet { owner { name } }", {}),
+    # several merged groups of same-key object fields of ONE type completed one after the other, different sub-selections
+    # (temporaries of an earlier group must not be mistaken for a later one: seeded C04-6)
+    ("same-key-groups-sequence", "{ a: me { name } a: me { phone } b: me { friend { name } } b: me { pets { name } } c: me { phone } "
+     "c: me { name friend { phone } } d: me { pets { __typename } } d: me { name } }", {}),
+    ("same-key-groups-list", "{ pets { o: owner { name } o: owner { phone } } a: me { friend { name } } a: me { phone } "
+     "me { friend { name } friend { pets { name } } } }", {}),
     ("leading-node-nested", "{ me { pets { owner { name } ... on Dog { owner { phone } } } } x: pet { owner { name } } }", {}),
 ]
 FIXED_SEEDS = [17, 21, 28, 29, 53, 0, 1, 2, 3, 4]
